@@ -38,7 +38,8 @@ Inductive member :=
 | MRestrict (sid : N) (mode : N) (selmod selrem : N) (d : Z) (others : list href)
                                                     (* &s.restrict() / &mut s.restrict_mut() / &s.restrict_mut() *)
 | MChange (k : N) (mode : N) (d : Z)                (* &cs / &mut cs / cs *)
-| MDrain (sid : N).                                 (* s.drain() *)
+| MDrain (sid : N)                                  (* s.drain() *)
+| MBitOp (bop : N) (a b : list N).                  (* &a & &b, &a | &b, &a ^ &b, !&a  of two bit sets (bop 0..3) *)
 
 Inductive jkind :=
 | JSeq (lim : option nat)        (* .join(), optionally .take(lim) *)
@@ -199,6 +200,15 @@ Fixpoint dec_member (fuel : nat) (l : list Z) : option (member * list Z) :=
           end
       | 7 :: k :: mode :: d :: r => Some (MChange (Z.to_N k) (Z.to_N mode) d, r)
       | 8 :: s :: r => Some (MDrain (Z.to_N s), r)
+      | 9 :: bop :: na :: r =>
+          match take_n (Z.to_nat na) r with
+          | Some (xa, nb :: r') =>
+              match take_n (Z.to_nat nb) r' with
+              | Some (xb, r'') => Some (MBitOp (Z.to_N bop) (map Z.to_N xa) (map Z.to_N xb), r'')
+              | None => None
+              end
+          | _ => None
+          end
       | _ => None
       end
   end%Z.
